@@ -8,6 +8,7 @@
 
 #include "ops_sqfvm.h"
 #include "../runtime/runtime.h"
+#include "../runtime/util.h"
 #include "../runtime/type.h"
 #include "../runtime/frame.h"
 #include "../runtime/sqfop.h"
@@ -375,7 +376,7 @@ namespace
     }
     value exit___scalar(runtime& runtime, value::cref right)
     {
-        runtime.exit(static_cast<int>(std::round(*right.data<d_scalar>())));
+        runtime.exit(sqf::runtime::util::round_to<int>(*right.data<d_scalar>()));
         return {};
     }
     value respawn___(runtime& runtime)
